@@ -47,7 +47,10 @@ def job_slice(T, Fc, asc, geom):
     li_, ri_ = z3.Int('l'), z3.Int('r')
     l, r_ = Sym(z3.ToReal(li_), True), Sym(z3.ToReal(ri_), True)
     t0 = Sym(z3.Real('t_start'))
-    pre = pre + [li_ >= 0, li_ < ri_, ri_ <= Fc]
+    # Python slice bounds: negative values count from the end of the band
+    nl = z3.If(li_ < 0, li_ + Fc, li_)
+    nr = z3.If(ri_ < 0, ri_ + Fc, ri_)
+    pre = pre + [li_ >= -Fc, li_ < Fc, ri_ >= -Fc + 1, ri_ <= Fc, ri_ != 0, nl < nr]
     D = sym_data(T, Fc)
 
     def run():
@@ -75,12 +78,12 @@ def job_slice(T, Fc, asc, geom):
         fr, s, s2 = leaf.value
         dis, py = common_claims(s, (asc, fr.df, fr.dt, t0, 'SRC_A'))
         W = s.data.shape[1]
-        dis.append(RV(W) != r_.t - l.t)
+        dis.append(RV(W) != z3.ToReal(nr) - z3.ToReal(nl))
         if s.data.shape[0] != T or len(s.fs) != W or len(s.ts) != T or s2.data.shape != s.data.shape:
             py.append('shape')
         else:
             for j in range(W):
-                jj = l.t + j
+                jj = z3.ToReal(nl) + j
                 # column j of the slice is parent column l + j (for the concrete l of this path)
                 for c in range(Fc):
                     hit = (jj == c)
@@ -368,7 +371,8 @@ def replay_slice(p):
         return True, f"get_slice({p['l']},{p['r']}) raised {e!r}"
     fr.data[0, 0] = -1e9
     bad = _attrs(s, fr)
-    if s.data.shape != (p['T'], p['r'] - p['l']) or not np.array_equal(s.data, D[:, p['l']:p['r']]):
+    width = len(range(*slice(p['l'], p['r']).indices(p['Fc'])))
+    if s.data.shape != (p['T'], width) or not np.array_equal(s.data, D[:, p['l']:p['r']]):
         bad.append('data columns')
     elif not np.allclose(s.fs, fr.fs[p['l']:p['r']], rtol=1e-12, atol=0):
         bad.append(f'fs {s.fs} != {fr.fs[p["l"]:p["r"]]}')
